@@ -299,13 +299,16 @@ func runPath(c *cfg, path []uint16) (uint64, explore.Status) {
 		var gotCursor int
 		if tf != nil {
 			gotVal = tf.Value
+			// the index is unexported: read through the state dump that /verif/check adds to the build
+			c, _ := tf.VerifState()
+			gotCursor = int(c)
 		} else {
 			gotVal, gotCursor = ti.String(), ti.CursorPosition()
 		}
 		if gotVal != e.value() {
 			return bad("value", o.Kind, fmt.Sprintf("value %q, ideal editor %q (before: %q)", gotVal, e.value(), preVal))
 		}
-		if ti != nil {
+		{
 			if gotCursor != e.cursor {
 				return bad("cursor", o.Kind, fmt.Sprintf("cursor at %d, ideal editor %d (value %q)", gotCursor, e.cursor, gotVal))
 			}
@@ -369,8 +372,15 @@ func runPath(c *cfg, path []uint16) (uint64, explore.Status) {
 		// unexported; it is observed through the column above and through the next operations of the search.
 	}
 	k := explore.Hash(c.widget, e.value(), fmt.Sprint(e.cursor))
+	if ti != nil {
+		off, paste := ti.VerifState()
+		k = explore.Hash(c.widget, e.value(), fmt.Sprint(e.cursor), fmt.Sprint(off, paste))
+	}
 	if tf != nil {
-		k = explore.Hash(c.widget, e.value(), fmt.Sprint(e.cursor), fmt.Sprint(tfProbe(tf)))
+		// the hidden editor state is part of the key: two fields that look alike but differ in their cached
+		// grapheme count have different futures
+		cur, n := tf.VerifState()
+		k = explore.Hash(c.widget, e.value(), fmt.Sprint(e.cursor), fmt.Sprint(tfProbe(tf)), fmt.Sprint(cur, n))
 	}
 	return k, explore.StOK
 }
